@@ -52,6 +52,23 @@ Definition builtin_registry : registry :=
     ("_eino_uintptr", TBase BUintptr); ("_eino_bool", TBase BBool); ("_eino_string", TBase BString);
     ("_eino_any", TAny) ]%string.
 
+(* GenericRegister: pointers are stripped from the type; a key or a type that is already
+   registered is refused *)
+Definition E_DUP : N := 5.
+Definition opt_some {A} (o : option A) : bool := match o with Some _ => true | None => false end.
+Definition register (reg : registry) (k : string) (t : ty) : res registry :=
+  let t' := snd (strip_ptr t) in
+  if opt_some (m_lookup reg k) then Err E_DUP
+  else if opt_some (rm_lookup reg t') then Err E_DUP
+  else Ok (reg ++ [(k, t')])%list.
+(* a sequence of registrations; a refused one is reported and changes nothing (the callers
+   of RegisterSerializableType may ignore the error) *)
+Fixpoint register_all (reg : registry) (l : list (string * ty)) : registry :=
+  match l with
+  | [] => reg
+  | (k, t) :: r => match register reg k t with Ok reg' => register_all reg' r | _ => register_all reg r end
+  end.
+
 (* the types the encoder looks up in the registry while it walks a value: the type of
    every basic / struct node, the pointer-stripped element, key and value types of every
    container, the pointer-stripped type of every nil pointer.  (The static type of an
